@@ -234,11 +234,13 @@ Proof.
   { split; [apply grows_set_slot; intros m E; discriminate | apply set_slot_has]. }
   assert (Hp : Grows st match class_of W s with
                  | SNode => (set_slot st s (BMod (node_module s))) <| st_has_node := true |>
+                 | SPass => set_slot st s (BExternal false)
                  | SBad => set_slot st s (BErr (BBadSpecifier s range))
                  | SUrl => queue_load st s range asset in_dyn root attr count
                  end /\
                has_key s (st_slots match class_of W s with
                  | SNode => (set_slot st s (BMod (node_module s))) <| st_has_node := true |>
+                 | SPass => set_slot st s (BExternal false)
                  | SBad => set_slot st s (BErr (BBadSpecifier s range))
                  | SUrl => queue_load st s range asset in_dyn root attr count
                  end) = true).
@@ -246,16 +248,19 @@ Proof.
     - split; [apply grows_queue_load|]. unfold queue_load. cbn. rewrite has_key_set_assoc, N.eqb_refl. reflexivity.
     - split; [eapply grows_trans; [apply (grows_set_slot st s (BMod (node_module s)) (node_trivial st s))|apply grows_ext; reflexivity]|].
       cbn. rewrite has_key_set_assoc, N.eqb_refl. reflexivity.
+    - split; [apply grows_set_slot; intros m E; discriminate | apply set_slot_has].
     - split; [apply grows_set_slot; intros m E; discriminate | apply set_slot_has]. }
   assert (Hp' : Grows st (if has_key s (st_redirects st) then set_slot st s (BErr (BLoad s range 1))
                  else match class_of W s with
                  | SNode => (set_slot st s (BMod (node_module s))) <| st_has_node := true |>
+                 | SPass => set_slot st s (BExternal false)
                  | SBad => set_slot st s (BErr (BBadSpecifier s range))
                  | SUrl => queue_load st s range asset in_dyn root attr count
                  end) /\
                has_key s (st_slots (if has_key s (st_redirects st) then set_slot st s (BErr (BLoad s range 1))
                  else match class_of W s with
                  | SNode => (set_slot st s (BMod (node_module s))) <| st_has_node := true |>
+                 | SPass => set_slot st s (BExternal false)
                  | SBad => set_slot st s (BErr (BBadSpecifier s range))
                  | SUrl => queue_load st s range asset in_dyn root attr count
                  end)) = true).
